@@ -61,6 +61,8 @@ class Run:
             with common.Lock():
                 import gen
                 stats, changed = gen.generate(seed=self.seed, only=modules)
+                if modules is None or 'NumbaIntegrate' in modules:
+                    stats = stats + gen.kernel_fold_check(self.seed)
             self.coverage.setdefault('translator', []).extend(stats)
             self.evaluations += sum(s['samples'] for s in stats)
             self.log(f"translator: {len(stats)} functions traced+validated, "
